@@ -23,6 +23,9 @@ pub struct Load {
 #[derive(Clone, Debug, Serialize, Deserialize, PartialEq, Eq, Hash)]
 pub struct Graph {
     pub files: Vec<Vec<Load>>,
+    /// css[i]: file i (i >= 1) is a plain CSS file `<name>.css` (it loads nothing, whatever `files[i]` says)
+    #[serde(default)]
+    pub css: Vec<bool>,
 }
 
 pub const NAMES: &[&str] = &["a", "b", "c", "d"];
@@ -31,6 +34,7 @@ pub const N_SPELLINGS: usize = 6;
 pub fn file_name(i: usize) -> String {
     if i == 0 { "a.scss".into() } else { format!("_{}.scss", NAMES[i]) }
 }
+
 
 /// equivalent spellings of the URL of file `t`
 pub fn spell(t: usize, s: usize) -> String {
@@ -50,8 +54,29 @@ pub fn spell(t: usize, s: usize) -> String {
 }
 
 impl Graph {
+    pub fn is_css(&self, f: usize) -> bool {
+        f > 0 && self.css.get(f).copied().unwrap_or(false)
+    }
+    pub fn name_of(&self, f: usize) -> String {
+        if self.is_css(f) { format!("{}.css", NAMES[f]) } else { file_name(f) }
+    }
+    /// spelling of the URL of file `t` as loaded from this graph
+    pub fn url(&self, t: usize, s: usize) -> String {
+        if self.is_css(t) {
+            let n = NAMES[t];
+            return match s % N_SPELLINGS {
+                4 => format!("{n}.css"),
+                5 => format!("./{n}.css"),
+                _ => spell(t, s),
+            };
+        }
+        spell(t, s)
+    }
     /// loads of a file in the order they are written: @use, @forward, then @import and load-css in given order
     pub fn ordered(&self, f: usize) -> Vec<&Load> {
+        if self.is_css(f) {
+            return vec![];
+        }
         let l = &self.files[f];
         let mut v: Vec<&Load> = l.iter().filter(|x| x.kind == Kind::Use).collect();
         v.extend(l.iter().filter(|x| x.kind == Kind::Forward));
@@ -65,7 +90,7 @@ impl Graph {
             s.push_str("@use \"sass:meta\";\n");
         }
         for (i, l) in loads.iter().enumerate() {
-            let url = spell(l.target, l.spelling);
+            let url = self.url(l.target, l.spelling);
             match l.kind {
                 Kind::Use => s.push_str(&format!("@use \"{url}\" as n{i};\n")),
                 Kind::Forward => s.push_str(&format!("@forward \"{url}\";\n")),
@@ -77,10 +102,10 @@ impl Graph {
         s
     }
     pub fn sources(&self) -> Vec<(String, String)> {
-        (0..self.files.len()).map(|f| (file_name(f), self.source(f))).collect()
+        (0..self.files.len()).map(|f| (self.name_of(f), self.source(f))).collect()
     }
     pub fn edges(&self) -> usize {
-        self.files.iter().map(|f| f.len()).sum()
+        (0..self.files.len()).map(|f| self.ordered(f).len()).sum()
     }
 }
 
@@ -149,7 +174,7 @@ pub fn load(nfiles: usize, kinds: &'static [Kind]) -> impl Strategy<Value = Load
 
 /// random graphs over `nfiles` files with up to `max_loads` loads per file
 pub fn graphs(nfiles: usize, max_loads: usize, kinds: &'static [Kind]) -> impl Strategy<Value = Graph> {
-    proptest::collection::vec(proptest::collection::vec(load(nfiles, kinds), 0..=max_loads), nfiles).prop_map(|files| Graph { files })
+    (proptest::collection::vec(proptest::collection::vec(load(nfiles, kinds), 0..=max_loads), nfiles), proptest::collection::vec(proptest::bool::weighted(0.2), nfiles)).prop_map(|(files, css)| Graph { files, css })
 }
 
 /// every graph over `nfiles` files with at most one load per file (each load: any kind, any target, spellings thinned by `spell_step`)
@@ -165,7 +190,7 @@ pub fn enumerate_one_load(nfiles: usize, kinds: &'static [Kind], spellings: &'st
     let mut out = vec![];
     let mut idx = vec![0usize; nfiles];
     loop {
-        out.push(Graph { files: idx.iter().map(|i| options[*i].clone().into_iter().collect()).collect() });
+        out.push(Graph { files: idx.iter().map(|i| options[*i].clone().into_iter().collect()).collect(), css: vec![] });
         let mut k = 0;
         loop {
             if k == nfiles {
